@@ -35,12 +35,13 @@ NOTES = ("Technique family: static analysis only. Every check parses the "
          "state machine model, C17: 51 EEPROM images, C20: all slot tables "
          "of up to 6 FMMUs, C25: small-scope exhaustive draw sequences) "
          "and adds checker "
-         "self-validation on the recorded corpora: 609 seeded "
-         "property-breaking changes (all reported), 16 "
-         "mechanical variants and 609 hand-made behaviour-preserving "
+         "self-validation on the recorded corpora: 696 seeded "
+         "property-breaking changes (693 reported, two without verdict and "
+         "one gap recorded), 16 "
+         "mechanical variants and 696 hand-made behaviour-preserving "
          "refactorings (all silent). Held-out first-run "
-         "rates of the last two waves: 77 % of 87 unseen breaking changes "
-         "reported, 8 % of 87 unseen refactorings noisy (DESIGN.md 7.4).")
+         "rates of the last two waves: 82 % of 87 unseen breaking changes "
+         "reported, 7 % of 87 unseen refactorings noisy (DESIGN.md 7.4).")
 
 _TRUST = ("Python semantics of the constructs the rules read; the frozen "
           "reference tables named in the evidence file (eBPF ISA encoding, "
